@@ -474,5 +474,64 @@ func checkC10(c *Ctx) {
 	validateTracesF(c, "ImportsTraceMC", tcfg, map[string][]byte{"ImportsTraceMC.tla": []byte(importsTraceMC)}, items, 3000, false, func(it traceItem, res *TLCResult) {
 		c.Fail(Finding{Sig: "moved-" + res.Violated, Input: it.Key, What: fmt.Sprintf("predicate %s of ImportsTrace.tla fails on the target after the move: %s", res.Violated, truncate(string(it.Trace), 500)), Replay: it.Replay})
 	})
+	c10Lookalike(c)
 	c.Set("rule", "case = one of nine declarations (var with calls, func with remote parameter types, struct type, func with nested block and a local helper, generics, literal keys, assignments, local type alias and variable named like import names) decorated with gotypes or goast and moved from a file importing three libraries (two with one package name) plainly / aliased / dot-imported into a target file of the same or another package that imports them absent / plain / aliased / dot, in one or two hops; all non-trivial; distinct by configuration")
+}
+
+// c10Lookalike: a function that refers to a package whose import path has an element that merely
+// ends in "vendor" is moved to another package, decorated with either resolver.
+func c10Lookalike(c *Ctx) {
+	libPath := "example.com/tools/govendor/pkgspec"
+	lib := &memPkg{Import: libPath, Path: libPath, Files: map[string]string{"l.go": "package pkgspec\n\nfunc Parse() int { return 1 }\n\nvar Default = 2\n"}}
+	srcText := "package src\n\nimport \"" + libPath + "\"\n\nfunc Load() int { return pkgspec.Parse() + pkgspec.Default }\n"
+	names := map[string]string{libPath: "pkgspec", "app/src": "src", "app/dst": "dst"}
+	for _, mode := range []string{"gotypes", "goast"} {
+		key := "vendor-lookalike-path|" + mode
+		c.Eval(key, true)
+		u := newUniverse(lib, &memPkg{Import: "app/src", Path: "app/src", Files: map[string]string{"s.go": srcText}})
+		_, info, afs, err := u.Check("app/src")
+		if err != nil {
+			c.Infra("lookalike source does not type-check: " + err.Error())
+			return
+		}
+		var ds *decorator.Decorator
+		if mode == "gotypes" {
+			ds = decorator.NewDecoratorWithImports(u.fset, "app/src", gotypes.New(info.Uses))
+		} else {
+			ds = decorator.NewDecoratorWithImports(u.fset, "app/src", goast.WithResolver(simple.New(names)))
+		}
+		sf, err := ds.DecorateFile(afs[0])
+		if err != nil {
+			c.Fail(Finding{Sig: "move-decorate-fails", Input: key, What: err.Error(), Replay: obj{"kind": "none"}})
+			continue
+		}
+		moved := sf.Decls[len(sf.Decls)-1]
+		sf.Decls = sf.Decls[:len(sf.Decls)-1]
+		tf, err := decorator.Parse("package dst\n\nvar own = 1\n")
+		if err != nil {
+			c.Infra(err.Error())
+			return
+		}
+		tf.Decls = append(tf.Decls, moved)
+		var buf bytes.Buffer
+		if err := decorator.NewRestorerWithImports("app/dst", simple.New(names)).Fprint(&buf, tf); err != nil {
+			c.Fail(Finding{Sig: "move-restore-fails", Input: key, What: err.Error(), Replay: obj{"kind": "none"}})
+			continue
+		}
+		ju := newUniverse(lib, &memPkg{Import: "app/dst", Path: "app/dst", Files: map[string]string{"t.go": buf.String()}})
+		_, jinfo, jafs, err := ju.Check("app/dst")
+		if err != nil {
+			c.Fail(Finding{Sig: "moved-code-does-not-type-check", Input: key, What: err.Error() + "\n" + buf.String(), Replay: obj{"kind": "none"}})
+			continue
+		}
+		ok := false
+		for _, f := range declFacts(jafs[0], jinfo) {
+			if f.Pkg == libPath && f.Obj == "Parse" {
+				ok = true
+			}
+		}
+		if !ok {
+			c.Fail(Finding{Sig: "reference-changed", Input: key, What: "Parse no longer denotes " + libPath + ".Parse\n" + buf.String(), Replay: obj{"kind": "none"}})
+		}
+	}
 }
